@@ -112,3 +112,40 @@ Definition run_lexspec (m : msg) (pybytes : list N) : string :=
   r ++ (if wf_msg m then "" else " !wf")
     ++ (if bytes_eqb (render_msg m) pybytes then "" else " !render")
     ++ (if String.eqb spec r then "" else " !tokens").
+
+(* ---- kind tree (C01, C02, C05, C06, C10, C11): scripted handlers on a run-time tree ---- *)
+From VF Require Import Response Tree Scripted.
+Definition show_lentry (e : lentry) : string :=
+  match e with
+  | LCall id q => show_N id ++ (if q then "q" else "e")
+  | LTok t => "p" ++ show_token t
+  | LAbsent => "pA"
+  | LPullErr c => "pE" ++ show_Z c
+  end.
+Definition show_run (capd : bool) (r : outcome (run_result slog)) : string :=
+  match r with
+  | Panic s => "PANIC " ++ s
+  | Val r =>
+    (match r_err r with None => "OK" | Some e => show_error e end)
+    ++ " out=" ++ show_bytes (r_out r)
+    ++ " hook=" ++ (match r_hook r with [] => "-" | l => join "," (map show_error l) end)
+    ++ " alloc=" ++ (if capd then "0" else "x")
+    ++ " log=" ++ (match r_dev r with [] => "-" | l => join "," (map show_lentry l) end)
+  end.
+Definition run_tree (cap : option nat) (sub : list (tree slog)) (msgs : list (list N)) : string :=
+  let root := Branch [82; 79; 79; 84]%N false sub in
+  join " | " (map (fun m => show_run (match cap with Some _ => true | None => false end)
+                                     (run root m [] (mkFmt cap []))) msgs).
+
+(* ---- C02 spec validation: all designations of a header vs the dispatcher's resolution ---- *)
+From VF Require Import HeaderSpec Grammar.
+Definition show_desig (x : command slog * tree slog) : string :=
+  show_N (cid (fst x)) ++ "@" ++ show_bytes (node_name (snd x)).
+Definition run_desig (sub : list (tree slog)) (ms : list (list N)) (query : bool) : string :=
+  let root := Branch [82; 79; 79; 84]%N false sub in
+  let toks := List.app (map IOk (tokens_path ms)) (if query then [IOk THeaderQuerySuffix] else []) in
+  (match desig root root ms with [] => "-" | l => join "," (map show_desig l) end)
+  ++ " " ++ match resolve root root toks with
+            | RFound c q lf _ => "R" ++ show_N (cid c) ++ (if q then "q" else "e") ++ "@" ++ show_bytes (node_name lf)
+            | RFail e _ => "E" ++ show_Z e
+            end.
